@@ -126,6 +126,17 @@ def run(tier):
         ck.ob("M-row-coverage", "impl/" + im["self_ty"], row_exists(im),
               "Opaquable impl for %s (%s) has no row in the Send/Sync matrix" % (im["self_ty"], im["span"]))
     ck.floor("opaquable matrix cells", n_opq, 300)
+    if tier == "thorough":
+        # independent cross-check by real compilation: must-not-compile programs with compiling twins
+        res, log = corpus.run_witnesses()
+        ck.unit("witness crate (cargo +nightly test --doc): %d doc-tests" % len(res))
+        ck.floor("compile-fail witnesses and twins", len(res), 16)
+        for name, kind, ok in sorted(res):
+            if kind == "compile fail":
+                ck.ob("W-must-not-compile", "witness/%s" % name, ok, "witness %s compiles (or fails with a different error than E0277): a program that must be rejected is accepted" % name,
+                      sample={"witness": name, "verdict": "rejected with E0277"})
+            else:
+                ck.ob("W-twin-compiles", "witness/%s-twin" % name, ok, "the compiling twin of witness %s no longer compiles: the witness is vacuous" % name)
     ck.extra["matrix"] = {"probes": len(meta), "opaquable_rows": n_opq, "rows_per_handle": rows_per_handle}
     return ck.finish(
         "rustc's trait solver decides Send/Sync of source and normalised OpaqueTarget for every (wrapper x handle x context x payload) "
